@@ -13,6 +13,11 @@ Streams (DESIGN section 7, C07):
             tables for the model, the legacy table against the spec
   timelock  the CLTV / CSV boundary product (locktime x sequence x version x operand)
   prog      random programs of <= 40 operations from a grammar with balanced conditionals
+  reuse     object-reuse histories: every third generated program (and all P2SH / witness-program shapes) is
+            evaluated two or three times on ONE Script object and ONE Tx; every outcome is compared with the
+            specification (inside the property's scope) or the model, and after every evaluation the direct
+            predicate "evaluation does not modify its arguments" is checked: `script.commands`, the Tx serialisation,
+            the input's scriptSig commands and witness items are what they were before
 A disagreement with the SPEC on an input inside the property's scope is the violation (tagged with the
 finding id inside a known finding's predicate); a disagreement with the MODEL outside that scope
 (oversized numeric operands, P2SH / witness-program patterns, opcodes outside the set) breaks the
@@ -24,6 +29,7 @@ from harness.common import REJECT, MachineryError, xb, unx, blist, batch_paralle
 
 PROPERTY = "C07"
 DRIVERS = ["drv_c07"]
+PROPS_MODULES = ["Buidl.Props.C07", "Buidl.Props.C07Tap"]
 
 _OP_FUNCS = """encode_num decode_num op_0 op_1negate op_1 op_2 op_3 op_4 op_5 op_6 op_7 op_8 op_9 op_10 op_11 op_12
 op_13 op_14 op_15 op_16 op_nop op_if op_notif op_verify op_return op_toaltstack op_fromaltstack op_2drop op_2dup
@@ -44,7 +50,8 @@ ANCHORS = [("buidl/op.py", f) for f in _OP_FUNCS] + [
 ]
 RULE = ("cases come from one PRNG seeded by VERIF_SEED plus fixed catalogues (all 0..2-byte strings and integer "
         "boundaries for the codec; every opcode of both dispatch tables on all stacks of depth <= 3 over a 6-element "
-        "alphabet; the CLTV/CSV boundary product); a case is non-trivial when the implementation does not reject it "
+        "alphabet; the CLTV/CSV boundary product; every third program evaluated 2-3 times on one Script object and one "
+        "Tx with the arguments compared before/after); a case is non-trivial when the implementation does not reject it "
         "or the stack/program is non-empty; distinct = distinct request lines")
 CLAUSES = {
     "script numbers are encoded minimally and decoding inverts encoding for every integer":
@@ -204,7 +211,47 @@ def _impl(t):
         cmds, rest = parse_cmds(rest[3:])
         _state["rot6"] = False
         return "ACCEPT" if Script(cmds).evaluate(make_tx(lt, seq, ver), 0) else REJECT
+    if op == "evalseq":
+        # evalseq <cfg> <times> <locktime> <sequence> <version> <commands>: ONE Script object and ONE Tx, evaluated
+        # `times` times -> "<outcome> ... args=same" | "... args=changed@<evaluation>:<what>"
+        k, lt, seq, ver = int(t[2]), int(t[3]), int(t[4]), int(t[5])
+        cmds, rest = parse_cmds(t[6:])
+        script, tx = Script(cmds), make_tx(lt, seq, ver)
+        before = _args_snapshot(script, tx)
+        outs, changed = [], None
+        for i in range(k):
+            _state["rot6"] = False
+            try:
+                ok = script.evaluate(tx, 0)
+            except MachineryError:
+                raise
+            except Exception:
+                ok = False
+            outs.append("ACCEPT" if ok else REJECT)
+            after = _args_snapshot(script, tx)
+            if changed is None and after != before:
+                what = ",".join(n for n, a, b in zip(_ARG_NAMES, before, after) if a != b)
+                changed = f"changed@{i + 1}:{what}"
+        return " ".join(outs) + " args=" + (changed or "same")
     raise UnknownOp(op)
+
+
+_ARG_NAMES = ("script.commands", "tx.serialize", "tx_in.script_sig.commands", "tx_in.witness.items", "tx fields")
+
+
+def _args_snapshot(script, tx):
+    """everything `Script.evaluate(tx_obj, input_index)` is given, as plain values"""
+    try:
+        ser = tx.serialize()
+    except Exception as e:
+        ser = "raise " + type(e).__name__
+    ti = tx.tx_ins[0]
+    return (list(script.commands), ser, list(ti.script_sig.commands), list(ti.witness.items),
+            (tx.version, int(tx.locktime), int(ti.sequence), ti.prev_tx, ti.prev_index, len(tx.tx_ins), len(tx.tx_outs)))
+
+
+def seq_expected(outcome, k):
+    return " ".join([outcome] * k) + " args=same"
 
 
 def impl_line(line):
@@ -717,6 +764,8 @@ def run(ctx):
         rec.count(f"timelock{code}:" + impl.split(" ")[0])
 
     # ---------------------------------------------------------------- 4. programs
+    reuse, reuse_n = [], [0]
+
     def flush(progs):
         """run one chunk of programs (kind, cmds, locktime, sequence, version) on both sides and record"""
         if not progs:
@@ -750,6 +799,36 @@ def run(ctx):
             rec.count(f"prog_len:{min(40, (len(cmds) + 9) // 10 * 10)}")
             if any(c in (99, 100) for c in cmds):
                 rec.count("prog:with_conditional")
+            reuse_n[0] += 1
+            if kind in ("prog_p2sh", "prog_trigger") or reuse_n[0] % 3 == 0:
+                k = 2 + (reuse_n[0] // 3) % 2
+                reuse.append((kind, f"evalseq {CFG['tok']} {k} {lt} {seq} {ver} {fmt_cmds(cmds)}", k,
+                              sp if scope else mo, scope, len(cmds)))
+        # ---- object reuse: the same Script object and the same Tx evaluated k times
+        seq_impls = impl_parallel([r[1] for r in reuse], W)
+        for (kind, line, k, want1, scope, ncmds), (impl, _) in zip(reuse, seq_impls):
+            want = seq_expected(want1, k)
+            if impl == want:
+                rec.ok("reuse", line, nontrivial=ncmds > 1)
+                rec.count(f"reuse:{kind}:x{k}:{want1}")
+                if len(rec.cov_lines.setdefault("reuse", [])) < 40:
+                    rec.cov_lines["reuse"].append(line)
+                continue
+            outs = impl.split(" ")[:-1]
+            case = {"line": line, "oracle": "spec" if scope else "model"}
+            if not impl.endswith("args=same"):
+                rec.violation("reuse_args", case, impl, want,
+                              note="Script.evaluate modified its arguments (the Script object's commands, the "
+                                   "transaction, its scriptSig or its witness)")
+            if outs != [want1] * k:
+                if outs[0] == want1:
+                    rec.violation("reuse_outcome", case, impl, want,
+                                  note="a later evaluation of the same Script object on the same Tx differs from the first")
+                elif scope:
+                    rec.violation("reuse_outcome", case, impl, want, note="evaluate differs from consensus")
+                else:
+                    rec.disagreement("reuse", case, impl, want)
+        del reuse[:]
 
     CHUNK = 150000
     progs = []   # (kind, cmds, lt, seq, ver)
@@ -788,6 +867,11 @@ def run(ctx):
             progs.append(("prog_trigger", [first, h], 0, 0, 1))
             progs.append(("prog_trigger", [first, h, 81], 0, 0, 1))
             progs.append(("prog_trigger", [81, first, h], 0, 0, 1))
+    # straight-line programs whose first evaluation fails half-way (a consumed command list would accept the rest)
+    for cmds in ([0, 105, 81], [85, 86, 136, 81], [108, 81, 81], [81, 99, 0, 105, 104, 81], [0, 100, 0, 105, 104, 81],
+                 [81, 81, 135, 105, 0, 105, 81], [82, 83, 147, 85, 135], [81]):
+        for _ in range(3):          # the reuse stream takes every third program
+            progs.append(("prog", cmds, 0, 0, 1))
     flush(progs)
 
 
@@ -799,6 +883,11 @@ def replay(ctx, v):
         return not ok
     line = case["line"]
     impl = impl_line(line)
+    if line.startswith("evalseq "):
+        t = line.split(" ")
+        single = ("spec_eval " if case.get("oracle") == "spec" else f"eval {t[1]} ") + " ".join(t[3:])
+        ans = ctx.driver("drv_c07").one(single).split(" ")[0]
+        return impl != seq_expected(ans, int(t[2]))
     ans = ctx.driver("drv_c07").one(line)
     if line.startswith("eval "):
         ans = ans.split(" ")[0]
